@@ -1,3 +1,303 @@
-/- Model for C05: not written yet -/
+/-
+M-Store: model of pkg/haproxy/types/backends.go (`Backends`: items / itemsAdd / itemsDel / shards /
+changedShards with AcquireBackend, RemoveAll, Clear, Shrink, Commit, ChangedShards,
+BuildSortedShard / BuildSortedItems) and of the backend part of the update cycle of
+pkg/haproxy/instance.go (`HAProxyUpdate`: `config.Shrink()`, `writeConfig()` = main file plus
+`ChangedShards()` only, deferred `config.Commit()`).  Core-only.
+
+Names are drawn from a finite universe `Fin p` (every history touches finitely many names; the
+theorems hold for every `p`).  Go maps are finite maps `Fin p → Option Content`.  The shard of a
+name is the abstract function `Sh.shardOf` (the real one is md5-based: `createBackend`), the
+harness reports the real shard of every name it uses.
+
+A backend's rendered content is abstract: `cfg` stands for everything but the endpoint list,
+`slots` for the (empty) endpoint slots.  `Shrink` drops a del/add pair of the same name when
+`len(add.Endpoints) <= len(del.Endpoints) && backendsMatch(add, del)`; `backendsMatch` ignores
+empty endpoints, hence `Content.matches`.  Shrink puts the DELETED object back into `items`
+(`b.items[name] = del`), which is what keeps `items` equal to the file content.
+-/
 namespace HapVerif.C05
+
+structure Content where
+  cfg : Nat
+  slots : Nat
+deriving DecidableEq, Repr
+
+/-- `len(add.Endpoints) <= len(del.Endpoints) && backendsMatch(add, del)` -/
+def Content.matches (add del : Content) : Bool := add.cfg == del.cfg && decide (add.slots ≤ del.slots)
+
+abbrev Map (p : Nat) := Fin p → Option Content
+
+def emp {p : Nat} : Map p := fun _ => none
+def setM {p : Nat} (m : Map p) (x : Fin p) (v : Option Content) : Map p := fun y => if y = x then v else m y
+
+/-- bounded existential over `Fin p` (Go: `len(m) > 0`, loops over a map) -/
+def anyBelow {p : Nat} (f : Fin p → Bool) : (i : Nat) → i ≤ p → Bool
+  | 0, _ => false
+  | i + 1, h => f ⟨i, h⟩ || anyBelow f i (Nat.le_of_succ_le h)
+
+def anyFin {p : Nat} (f : Fin p → Bool) : Bool := anyBelow f p (Nat.le_refl p)
+
+/-- shard count (`len(b.shards)`, 0 = sharding disabled) and shard function (`backend.shard`) -/
+structure Sh (p : Nat) where
+  n : Nat
+  shardOf : Fin p → Nat
+
+/-- `createBackend`: `shard = hash64 % shards` when `shards > 0`, else 0 -/
+def Sh.WF {p : Nat} (sh : Sh p) : Prop := ∀ x, if sh.n = 0 then sh.shardOf x = 0 else sh.shardOf x < sh.n
+
+structure Store (p : Nat) where
+  items : Map p := emp
+  add : Map p := emp
+  del : Map p := emp
+  shards : Nat → Map p := fun _ => emp          -- only used when `n > 0`
+  changed : Nat → Bool := fun _ => false        -- `changedShards`
+
+/-- one file per shard (`haproxy5-backendNNN.cfg`); with `n = 0` file 0 is the main file -/
+abbrev Disk (p : Nat) := Nat → Map p
+
+variable {p : Nat}
+
+/-- `if len(b.shards) > 0 { b.shards[backend.shard][id] = v }` (`v = none`: delete) -/
+def setShard (sh : Sh p) (shards : Nat → Map p) (x : Fin p) (v : Option Content) : Nat → Map p :=
+  fun k y => if sh.n ≠ 0 ∧ k = sh.shardOf x ∧ y = x then v else shards k y
+
+def flag (s : Store p) (k : Nat) : Store p := { s with changed := fun j => j == k || s.changed j }
+
+/-- `AcquireBackend` (find or create) followed by the caller filling the new object -/
+def acquire (sh : Sh p) (s : Store p) (x : Fin p) (c : Content) : Store p :=
+  match s.items x with
+  | some _ => s
+  | none =>
+    flag { s with
+      items := setM s.items x (some c)
+      add := setM s.add x (some c)
+      shards := setShard sh s.shards x (some c) } (sh.shardOf x)
+
+def removeOne (sh : Sh p) (s : Store p) (x : Fin p) : Store p :=
+  match s.items x with
+  | none => s
+  | some v =>
+    flag { s with
+      items := setM s.items x none
+      del := setM s.del x (some v)
+      shards := setShard sh s.shards x none } (sh.shardOf x)
+
+/-- `RemoveAll` -/
+def removeAll (sh : Sh p) (s : Store p) (xs : List (Fin p)) : Store p := xs.foldl (removeOne sh) s
+
+def nonEmpty (m : Map p) : Bool := anyFin fun x => (m x).isSome
+
+/-- `Clear`: fresh state, `itemsDel` = the old items, every non-empty shard of the OLD state is
+flagged in the NEW state (so a shard that the new state leaves empty is rewritten) -/
+def clear (sh : Sh p) (s : Store p) : Store p :=
+  { items := emp, add := emp, del := s.items, shards := fun _ => emp,
+    changed := fun k => decide (k < sh.n) && nonEmpty (s.shards k) }
+
+/-- `Clear` before the repair (historical witness): the loop tested the shards of the NEW (empty)
+object and flagged the OLD object, which was then overwritten — no shard was ever flagged -/
+def clearOld (_sh : Sh p) (s : Store p) : Store p :=
+  { items := emp, add := emp, del := s.items, shards := fun _ => emp, changed := fun _ => false }
+
+def matched (s : Store p) (x : Fin p) : Bool :=
+  match s.del x, s.add x with
+  | some d, some a => a.matches d
+  | _, _ => false
+
+/-- `Shrink`: every name is handled independently of the others, so Go's map order is irrelevant -/
+def shrink (sh : Sh p) (s : Store p) : Store p :=
+  let add' : Map p := fun x => if matched s x then none else s.add x
+  let del' : Map p := fun x => if matched s x then none else s.del x
+  { items := fun x => if matched s x then s.del x else s.items x
+    add := add'
+    del := del'
+    shards := fun k x => if sh.n ≠ 0 ∧ matched s x = true ∧ k = sh.shardOf x then s.del x else s.shards k x
+    changed := if anyFin (matched s) then
+        fun k => anyFin fun x => ((add' x).isSome || (del' x).isSome) && sh.shardOf x == k
+      else s.changed }
+
+/-- `Commit` -/
+def commit (s : Store p) : Store p := { s with add := emp, del := emp, changed := fun _ => false }
+
+/-- `writeConfig`: the main file is always rendered (`BuildSortedItems` is `items` when there are no
+shards, nil otherwise), then `BuildSortedShard(k)` for `k ∈ ChangedShards()` only -/
+def write (sh : Sh p) (s : Store p) (d : Disk p) : Disk p :=
+  if sh.n = 0 then fun k => if k = 0 then s.items else d k
+  else fun k => if s.changed k then s.shards k else d k
+
+inductive Op (p : Nat) where
+  | acquire (x : Fin p) (c : Content)
+  | removeAll (xs : List (Fin p))
+  | clear
+  | shrink
+  | write
+  | commit
+  | update      -- shrink; write; commit  (one successful `HAProxyUpdate` that rewrites files)
+
+structure World (p : Nat) where
+  store : Store p := {}
+  disk : Disk p := fun _ => emp
+
+def stepWith (clr : Sh p → Store p → Store p) (sh : Sh p) (w : World p) : Op p → World p
+  | .acquire x c => { w with store := acquire sh w.store x c }
+  | .removeAll xs => { w with store := removeAll sh w.store xs }
+  | .clear => { w with store := clr sh w.store }
+  | .shrink => { w with store := shrink sh w.store }
+  | .write => { w with disk := write sh w.store w.disk }
+  | .commit => { w with store := commit w.store }
+  | .update =>
+    let s := shrink sh w.store
+    { store := commit s, disk := write sh s w.disk }
+
+/-- the current code -/
+def step (sh : Sh p) (w : World p) (op : Op p) : World p := stepWith clear sh w op
+
+def run (sh : Sh p) (w : World p) (ops : List (Op p)) : World p := ops.foldl (step sh) w
+
+/-- the code before the repair of `Clear` -/
+def runOld (sh : Sh p) (w : World p) (ops : List (Op p)) : World p := ops.foldl (stepWith clearOld sh) w
+
+/-- what a file of shard `k` must hold: the current items of that shard -/
+def itemsIn (sh : Sh p) (s : Store p) (k : Nat) : Map p := fun x => if sh.shardOf x = k then s.items x else none
+
+/-- caller discipline, the quantifier of the property: a batch is a partial resync
+(`RemoveAll(dirty)` before anything is re-added) or a full resync (`Clear` right after a commit);
+`write`/`commit` only as part of an update cycle -/
+def okOp (s : Store p) : Op p → Bool
+  | .acquire _ _ => true
+  | .removeAll xs => xs.all fun x => (s.add x).isNone
+  | .clear => !(anyFin fun x => (s.add x).isSome || (s.del x).isSome)
+  | .shrink => true
+  | .write => false
+  | .commit => false
+  | .update => true
+
+def allOk (sh : Sh p) : World p → List (Op p) → Bool
+  | _, [] => true
+  | w, op :: ops => okOp w.store op && allOk sh (step sh w op) ops
+
+/-! ### observations (driver) and the Spec evaluated on implementation output -/
+
+/-- one backend as printed by the harness -/
+structure Ent where
+  name : Nat
+  cfg : Nat
+  slots : Nat
+deriving DecidableEq, Repr
+
+/-- observable state after one op -/
+structure Obs where
+  items : List Ent
+  add : List Ent
+  del : List Ent
+  changed : List Nat
+  disk : List (Nat × List Ent)      -- every file that exists, by shard index
+deriving DecidableEq, Repr
+
+def entsOf (m : Map p) : List Ent :=
+  (List.finRange p).filterMap fun x => (m x).map fun c => { name := x.val, cfg := c.cfg, slots := c.slots }
+
+/-- number of files: one per shard, or the single main file -/
+def Sh.files (sh : Sh p) : Nat := if sh.n = 0 then 1 else sh.n
+
+def obsOf (sh : Sh p) (w : World p) : Obs :=
+  { items := entsOf w.store.items, add := entsOf w.store.add, del := entsOf w.store.del
+    changed := (List.range sh.files).filter w.store.changed
+    disk := (List.range sh.files).map fun k => (k, entsOf (w.disk k)) }
+
+def hasName (l : List Ent) (n : Nat) : Bool := l.any (·.name == n)
+
+def strictSorted : List Ent → Bool
+  | a :: b :: r => decide (a.name < b.name) && strictSorted (b :: r)
+  | _ => true
+
+/-- Spec on one observation taken right after files were written: every file holds exactly the
+current items of its shard, once, sorted; `shardOf` = the real shard index of each name -/
+def diskClause (files : Nat) (shardOf : Nat → Nat) (o : Obs) : Option String :=
+  let fileOf (k : Nat) : List Ent := ((o.disk.filter (·.1 == k)).map (·.2)).flatten
+  if o.disk.any (fun f => !strictSorted f.2) then some "duplicate-or-unsorted-backend-on-disk"
+  else if o.disk.any (fun f => decide (files ≤ f.1) && !f.2.isEmpty) then some "stale-backend-on-disk"
+  else if o.disk.any (fun f => f.2.any fun e => !(hasName o.items e.name) || shardOf e.name != f.1) then
+    some "stale-backend-on-disk"
+  else if o.items.any (fun e => !(hasName (fileOf (shardOf e.name)) e.name)) then some "missing-backend-on-disk"
+  else if o.items.any (fun e => !((fileOf (shardOf e.name)).contains e)) then some "outdated-backend-on-disk"
+  else none
+
+/-- discipline evaluated on the implementation's own observations (state before the op) -/
+def okObs (prev : Obs) : Op p → Bool
+  | .removeAll xs => xs.all fun x => !(hasName prev.add x.val)
+  | .clear => prev.add.isEmpty && prev.del.isEmpty
+  | _ => true
+
+/-! ### hosts / frontend maps guard (`config.WriteFrontendMaps`)
+
+`Hosts` has the same items/itemsAdd/itemsDel/Shrink/Commit shape with a single "file" (the set of
+frontend maps) that is rewritten iff `frontend.Maps == nil || hosts.Changed()`.  `config.Clear`
+replaces hosts and frontend by fresh objects (itemsDel is NOT carried over; `Maps == nil` forces
+the rewrite).  Host content is abstract; `Hosts.Shrink` uses `reflect.DeepEqual`. -/
+
+structure HStore (p : Nat) where
+  items : Fin p → Option Nat := fun _ => none
+  add : Fin p → Option Nat := fun _ => none
+  del : Fin p → Option Nat := fun _ => none
+  mapsNil : Bool := true
+  maps : Fin p → Option Nat := fun _ => none     -- host entries in the map files
+
+def hset (m : Fin p → Option Nat) (x : Fin p) (v : Option Nat) : Fin p → Option Nat := fun y => if y = x then v else m y
+
+def HStore.acquire (s : HStore p) (x : Fin p) (c : Nat) : HStore p :=
+  match s.items x with
+  | some _ => s
+  | none => { s with items := hset s.items x (some c), add := hset s.add x (some c) }
+
+def HStore.removeOne (s : HStore p) (x : Fin p) : HStore p :=
+  match s.items x with
+  | none => s
+  | some v => { s with items := hset s.items x none, del := hset s.del x (some v) }
+
+def HStore.removeAll (s : HStore p) (xs : List (Fin p)) : HStore p := xs.foldl HStore.removeOne s
+
+/-- `config.Clear`: fresh `Hosts`, fresh `Frontend` (`Maps = nil`); the files stay on disk -/
+def HStore.clear (s : HStore p) : HStore p := { maps := s.maps }
+
+def HStore.hmatched (s : HStore p) (x : Fin p) : Bool :=
+  match s.del x, s.add x with
+  | some d, some a => a == d
+  | _, _ => false
+
+def HStore.shrink (s : HStore p) : HStore p :=
+  { s with
+    items := fun x => if s.hmatched x then s.del x else s.items x
+    add := fun x => if s.hmatched x then none else s.add x
+    del := fun x => if s.hmatched x then none else s.del x }
+
+/-- `Hosts.Changed()` -/
+def HStore.isChanged (s : HStore p) : Bool := anyFin fun x => (s.add x).isSome || (s.del x).isSome
+
+/-- `WriteFrontendMaps` then `Commit` -/
+def HStore.update (s : HStore p) : HStore p :=
+  let s := s.shrink
+  let s := if !s.mapsNil && !s.isChanged then s else { s with maps := s.items, mapsNil := false }
+  { s with add := fun _ => none, del := fun _ => none }
+
+inductive HOp (p : Nat) where
+  | acquire (x : Fin p) (c : Nat)
+  | removeAll (xs : List (Fin p))
+  | clear
+  | update
+
+def hstep (s : HStore p) : HOp p → HStore p
+  | .acquire x c => s.acquire x c
+  | .removeAll xs => s.removeAll xs
+  | .clear => s.clear
+  | .update => s.update
+
+def hokOp (s : HStore p) : HOp p → Bool
+  | .removeAll xs => xs.all fun x => (s.add x).isNone
+  | _ => true
+
+def hallOk : HStore p → List (HOp p) → Bool
+  | _, [] => true
+  | s, op :: ops => hokOp s op && hallOk (hstep s op) ops
+
 end HapVerif.C05
